@@ -35,13 +35,15 @@ import (
 //   (c) decoder-panic, decode-fixed-point
 
 type caseRef struct {
-	Part    string          `json:"part"` // value | cache | decode | golden | commitment
+	Part    string          `json:"part"` // value | cache | decode | golden | commitment | history
 	Type    string          `json:"type,omitempty"`
 	Spec    json.RawMessage `json:"spec,omitempty"`
 	Paths   string          `json:"paths,omitempty"`   // fast | full
 	Decoder string          `json:"decoder,omitempty"` // decode: decoder name, or cache:<kind>:<file>
 	Input   string          `json:"input,omitempty"`   // decode: hex of the input
 	Name    string          `json:"name,omitempty"`    // golden: vector name
+	Mode    string          `json:"mode,omitempty"`    // history: fresh | reuse | walk
+	Hist    []string        `json:"hist,omitempty"`    // history: names of the pool messages, in decode order
 }
 
 type finding struct {
@@ -992,6 +994,8 @@ func replay(r *vf.Run, g *goldenFile) {
 		for _, f := range fs {
 			report(r, f)
 		}
+	case "history":
+		replayHistory(r, ref)
 	default:
 		r.EngineError("unknown replay part " + ref.Part)
 	}
@@ -1005,7 +1009,9 @@ func TestCheck(t *testing.T) {
 		"equality of values is modulo nil-vs-empty byte strings and lists, and State.LastBlockTime is compared as an instant (time zone and monotonic clock are not part of the value)",
 		"a string that is not valid UTF-8 is refused by the protobuf encoder with an error; a clean refusal to encode is not a round-trip failure",
 		"gob cache files are compared by decoding, not byte-wise (gob type ids and map iteration order are not a format contract)",
-		"decoders run on fresh zero values, as every call site in the node does",
+		"decoders run on fresh zero values, as every call site in the node does (part d additionally decodes into reused receivers; there the decoded VALUE is judged only for bytes an encoder wrote)",
+		"part (d): 'fresh process state' is a newly started process (re-exec of the test binary) that has run the Go runtime's and the imported packages' initialisation and read the pool file, and nothing else, before its first decode; the harness builds its keys lazily so that no key or address code runs before it. Dumping a decoded value (Hash, signature check, ValidateBasic, re-encode, re-decode) happens after the last decode of the history",
+		"part (d) compares the success/failure of a decode, not error texts",
 	}
 	if os.Getenv("VERIF_C12_GOLDEN") == "write" {
 		if err := writeGolden(); err != nil {
@@ -1237,6 +1243,12 @@ func TestCheck(t *testing.T) {
 	})
 	lap("decode-cache-mutants")
 	removeScratch()
+	// ---- (d) decode histories, each in its own process
+	histLen := vf.Pick(r, 2, 3)
+	hst := runHistories(r, histLen)
+	evals += hst.evals
+	distinct += hst.distinct
+	lap("histories")
 	fmt.Printf("C12 phases (s): %v\n", phase)
 
 	evals += decEvals + cacheEvals
@@ -1256,8 +1268,9 @@ func TestCheck(t *testing.T) {
 	r.Finish(vf.Coverage{
 		Evaluations: evals, DistinctNontrivial: distinct, Exhaustive: true,
 		Rule: "(a) every enumerated value of every wire type is carried through each of its real paths (MarshalBinary/UnmarshalBinary, ToProto+proto.Marshal / proto.Unmarshal+FromProto, the real DefaultStore, Cache.SaveToDisk/LoadFromDisk) and compared field by field, by Hash/DACommitment and by signature validity; " +
-			"(b) fixed values are compared verbatim with /verif/golden/c12.json; (c) every byte string up to the length bound, every prefix and every single-byte substitution of every golden encoding is offered to every decoder. " +
-			"evaluations = (value, path) round trips attempted + commitment comparisons + golden comparisons + (decoder, input) decodes; distinct non-trivial = distinct values that completed a round trip on at least one path + distinct (decoder, input) pairs that decoded successfully and went through the re-encode/decode fixed-point test (mutants are de-duplicated by hash, short strings are distinct by construction)",
+			"(b) fixed values are compared verbatim with /verif/golden/c12.json; (c) every byte string up to the length bound, every prefix and every single-byte substitution of every golden encoding is offered to every decoder; " +
+			"(d) decode histories: over a pool of messages of every codec type that collide pairwise on every sub-key a memo could use (signer address / public key / key type, header hash, height, time, chain id, signature, tx list, metadata, wire length and prefix, present vs absent sub-messages, failing vs succeeding decodes), EVERY ordered history up to the length bound is run in its own freshly started process (fresh receivers: all pool^n histories; one reused receiver: all histories within one receiver type), decodes first, dumps afterwards; every step's dump (canonical fields, Hash/DACommitment, signature validity, ValidateBasic verdict, re-encoded bytes, re-decode fixed point) must equal the dump of the one-message history of that message, and a pool value must equal the value it was encoded from; plus one long in-process walk that decodes every ordered pair consecutively in the state parts (a)-(c) left behind. " +
+			"evaluations = (value, path) round trips attempted + commitment comparisons + golden comparisons + (decoder, input) decodes + histories (one process each) + decodes of the in-process walk; distinct non-trivial = distinct values that completed a round trip on at least one path + distinct (decoder, input) pairs that decoded successfully and went through the re-encode/decode fixed-point test (mutants are de-duplicated by hash, short strings are distinct by construction) + distinct histories whose last decode succeeds",
 		Bounds: map[string]any{
 			"byte_field_domain": "nil, empty, 1 byte, 32 bytes", "integer_domain": "0, 1, 2^63, 2^64-1", "string_domain": "empty, \"c\", ff fe (not UTF-8)",
 			"tx_count": fmt.Sprintf("0..%d over {nil, empty, 01, 02, 32 bytes}", b.maxTxs), "batch_entries": fmt.Sprintf("0..%d over {nil, empty, 1, 32, 300 bytes}", b.maxBatch),
@@ -1266,11 +1279,13 @@ func TestCheck(t *testing.T) {
 			"cache_cross_product": b.cacheCross, "decoder_short_strings_max_len": maxShort, "cache_file_short_strings_max_len": cacheShort,
 			"substitution_values_per_position": vf.Pick(r, "8 representative", "all 255 others"), "pair_substitutions_on_encodings_up_to_48_bytes": r.Thorough(),
 			"golden_vectors": len(g.Vectors),
+			"history_max_length": histLen, "history_pool_messages": hst.Pool,
+			"history_modes": "fresh receivers: all pool^n ordered histories, n = 1..max; reused receiver: all ordered histories of n = 2..max messages of one receiver type",
 		},
 		Extra: map[string]any{
 			"values_per_type": pt, "decoder_inputs": pd, "completed_path_round_trips": completed, "encode_refusals_non_utf8": rejected,
 			"decoder_evaluations": decEvals, "cache_decoder_evaluations": cacheEvals, "value_jobs": len(jobs),
-			"observations": observations(), "phase_seconds": phase,
+			"observations": observations(), "phase_seconds": phase, "decode_histories": hst,
 		},
 	})
 }
